@@ -275,7 +275,7 @@ def run_shard(k, seed, tier):
         return stats
     n = 100 if tier == 'quick' else 2500
     feats = (SEQ_FEATURES if k % 3 else ALL_FEATURES) - {'terminal'}
-    strat = programs(features=feats, size=dict(main_stmts=10, funcs=4, arr_len=6, max_params=5, deep_before_vla_pct=40, argv_vla=(k % 2 == 0)))
+    strat = programs(features=feats, size=dict(main_stmts=10, funcs=4, arr_len=6, max_params=5, deep_before_vla_pct=40, argv_vla=(k % 2 == 0), index_clobber_pct=25))
 
     def chk(case):
         if stats.evaluations % 200 == 0:
